@@ -4,6 +4,7 @@
 //! not even share the arena, and it is labelled as such (`trusted_base`) in the evidence.
 #![forbid(unsafe_code)]
 #![allow(deprecated)]
+#![cfg_attr(feature = "nightly", feature(freeze))]
 
 use indextree::{
     Ancestors, Arena, Children, DebugPrettyPrint, Descendants, FollowingSiblings, Node, NodeEdge, NodeError, NodeId, PrecedingSiblings,
@@ -53,4 +54,32 @@ pub fn share<T: Send + Sync>(arena: &Arena<T>) -> usize {
         let b = s.spawn(|| arena.iter().count());
         a.join().unwrap() + b.join().unwrap()
     })
+}
+
+/// "No interior mutability", decided by the compiler (nightly `Freeze` auto trait): no
+/// `UnsafeCell` - hence no `Cell`, `RefCell`, atomic, `Mutex`, `OnceLock` - directly inside any of
+/// these types, for every `T` that has none itself. Interior mutability hidden behind a pointer
+/// (`Box<AtomicUsize>`) escapes this bound; that is left to the schedule exploration.
+#[cfg(feature = "nightly")]
+pub mod frozen {
+    use super::*;
+    use core::marker::Freeze;
+    fn frozen<X: Freeze>() {}
+    pub fn all<T: Freeze + 'static>() {
+        frozen::<Arena<T>>();
+        frozen::<Node<T>>();
+        frozen::<NodeId>();
+        frozen::<NodeEdge>();
+        frozen::<NodeError>();
+        frozen::<Ancestors<'static, T>>();
+        frozen::<Predecessors<'static, T>>();
+        frozen::<PrecedingSiblings<'static, T>>();
+        frozen::<FollowingSiblings<'static, T>>();
+        frozen::<Children<'static, T>>();
+        frozen::<ReverseChildren<'static, T>>();
+        frozen::<Descendants<'static, T>>();
+        frozen::<Traverse<'static, T>>();
+        frozen::<ReverseTraverse<'static, T>>();
+        frozen::<DebugPrettyPrint<'static, T>>();
+    }
 }
